@@ -142,3 +142,20 @@ impl Aes128Gcm {
 pub broadcast proof fn lemma_path_view3(p: Seq<&[u8]>)
     ensures p.len() == 3 ==> #[trigger] path_view(p) == seq![p[0]@, p[1]@, p[2]@]
 { if p.len() == 3 { assert(path_view(p) =~= seq![p[0]@, p[1]@, p[2]@]); } }
+/// rand::rng().random_range(a..b) on u8 (the only use in the units: the VMess header padding length)
+pub mod rand {
+    use vstd::prelude::*;
+    #[verifier::external_body]
+    pub struct ThreadRng { _r: u8 }
+    #[verifier::external_body]
+    pub fn rng() -> ThreadRng { unimplemented!() }
+    impl ThreadRng {
+        #[verifier::external_body]
+        pub fn random_range(&mut self, range: core::ops::Range<u8>) -> (r: u8)
+            requires range.start < range.end
+            ensures range.start <= r < range.end
+        { unimplemented!() }
+    }
+}
+// (<[T]>::first: vstd's own specification is used)
+
